@@ -23,6 +23,9 @@ type Case struct {
 	Msgs  []Msg  `json:"msgs"`
 	Segs  []int  `json:"segs,omitempty"`
 	App   string `json:"app,omitempty"` // startup parameter value (retained by middleware)
+	// Prelude: connections that come and go before the main one: "reject" (wrong password; the
+	// validator retains database/user/password), "cancel" (CancelRequest), "short" (one query).
+	Prelude []string `json:"prelude,omitempty"`
 }
 
 func fill(n int, b byte) []byte {
@@ -50,6 +53,31 @@ func Run(c Case) core.Result {
 	}
 	env := script.Start(cfg)
 	defer env.Stop()
+	for i, k := range c.Prelude {
+		p := env.NewSess()
+		switch k {
+		case "reject":
+			if c.Auth {
+				pw := fmt.Sprintf("wrong-password-of-prelude-%d", i)
+				p.Startup([][2]string{{"user", fmt.Sprintf("prelude-user-%d", i)}, {"database", fmt.Sprintf("prelude-db-%d", i)}}, &pw)
+			}
+		case "cancel":
+			p.Send(pgwire.CancelRequest(uint32(i), 7))
+		case "short":
+			var pw *string
+			u := "u"
+			if c.Auth {
+				u, pw = cfg.Auth.User, &cfg.Auth.Pass
+			}
+			p.Startup([][2]string{{"user", u}}, pw)
+			p.Send(pgwire.Query(fmt.Sprintf("select prelude %d", i)))
+		}
+		p.C.CloseWrite()
+		p.C.WaitClosed(script.Guard)
+	}
+	if len(c.Prelude) > 0 {
+		res.Labels = append(res.Labels, "earlier-connections")
+	}
 	s := env.NewSess()
 	if c.Segs != nil {
 		s.C.SetSegments(c.Segs, true)
@@ -156,6 +184,6 @@ func Run(c Case) core.Result {
 	if oversized > 0 {
 		res.Labels = append(res.Labels, "oversized-skipped")
 	}
-	res.NonTrivial = n > 0 && len(c.Msgs) >= 4 && (crossings > 1 || oversized > 0)
+	res.NonTrivial = n > 0 && len(c.Msgs) >= 4 && (crossings > 1 || oversized > 0 || len(c.Prelude) > 0)
 	return res
 }
